@@ -1,5 +1,11 @@
 //! dbx — history / crash-image / seam-schedule enumeration on the real sierradb `Database`.
 mod c01;
+mod c02;
+mod c03;
+mod c05;
+mod c06;
+mod c16;
+mod c19;
 mod harness;
 mod pure;
 
@@ -28,7 +34,12 @@ pub fn drive<C: Serialize + DeserializeOwned + Sync + Clone>(
     let order = vcommon::seeded_order(plan.cases.len(), vcommon::seed_from_env());
     if let Some(spec) = worker_spec(&args.extra) {
         let cases = &plan.cases;
-        worker_loop(&spec, &order, |idx, out| run(&cases[idx], out));
+        worker_loop(&spec, &order, |idx, out| {
+            run(&cases[idx], out);
+            if harness::opens() > 400 {
+                out.retire = true;
+            }
+        });
     }
     let mut ctx = Ctx::new(plan.property, args.tier, plan.level);
     if let Some(rp) = &args.replay {
@@ -68,6 +79,12 @@ fn main() {
     let args = vcommon::parse_args();
     match args.property.as_str() {
         "C01" => c01::run(args),
+        "C02" => c02::run(args),
+        "C03" => c03::run(args),
+        "C19" => c19::run(args),
+        "C05" => c05::run(args),
+        "C06" => c06::run(args),
+        "C16" => c16::run(args),
         "C23" => pure::c23(args),
         "C25" => pure::c25(args),
         p => vcommon::machinery_fail(&format!("dbx does not serve property {p}")),
